@@ -15,6 +15,70 @@ pub static EVENTS: Mutex<Vec<(&'static str, u64, u64)>> = Mutex::new(Vec::new())
 pub static HITS: Mutex<BTreeMap<&'static str, u64>> = Mutex::new(BTreeMap::new());
 pub static COUNT_HITS: AtomicBool = AtomicBool::new(false);
 
+// ---- scheduling control over the yield points -------------------------------------------
+//
+// preemption: the thread marked with `mark_preemptible()` parks when it reaches PREEMPT_SITE
+// (state 1 -> 2) until the controller sets state 3 (or a timeout passes); this lets a second
+// thread run a whole operation inside the window between two critical sections of the first.
+// chaos: every yield point spins / yields / sleeps according to a per-thread xorshift stream.
+pub static PREEMPT_SITE: Mutex<Option<&'static str>> = Mutex::new(None);
+pub static PREEMPT_STATE: AtomicU64 = AtomicU64::new(0);
+pub static CHAOS_SEED: AtomicU64 = AtomicU64::new(0);
+thread_local! {
+    static PREEMPTIBLE: std::cell::Cell<bool> = const { std::cell::Cell::new(false) };
+    static CHAOS_RNG: std::cell::Cell<u64> = const { std::cell::Cell::new(0) };
+}
+
+pub fn mark_preemptible(on: bool) {
+    PREEMPTIBLE.with(|p| p.set(on));
+}
+
+pub fn arm_preemption(site: &'static str) {
+    *PREEMPT_SITE.lock() = Some(site);
+    PREEMPT_STATE.store(1, Ordering::SeqCst);
+}
+
+pub fn disarm_preemption() {
+    *PREEMPT_SITE.lock() = None;
+    PREEMPT_STATE.store(0, Ordering::SeqCst);
+}
+
+fn yield_behaviour(site: &'static str) {
+    if PREEMPT_STATE.load(Ordering::SeqCst) == 1 && PREEMPTIBLE.with(|p| p.get()) {
+        let target = *PREEMPT_SITE.lock();
+        if target == Some(site) && PREEMPT_STATE.compare_exchange(1, 2, Ordering::SeqCst, Ordering::SeqCst).is_ok() {
+            let start = std::time::Instant::now();
+            while PREEMPT_STATE.load(Ordering::SeqCst) == 2 && start.elapsed() < std::time::Duration::from_secs(5) {
+                std::thread::yield_now();
+            }
+            return;
+        }
+    }
+    let seed = CHAOS_SEED.load(Ordering::Relaxed);
+    if seed != 0 {
+        let mut x = CHAOS_RNG.with(|c| c.get());
+        if x == 0 {
+            // per-thread stream
+            let tid = format!("{:?}", std::thread::current().id());
+            x = seed ^ crate::rng::hash_str(&tid) | 1;
+        }
+        x ^= x << 13;
+        x ^= x >> 7;
+        x ^= x << 17;
+        CHAOS_RNG.with(|c| c.set(x));
+        match x % 16 {
+            0..=7 => {}
+            8..=11 => std::thread::yield_now(),
+            12..=13 => {
+                for _ in 0..(x >> 8) % 2000 {
+                    std::hint::spin_loop();
+                }
+            }
+            _ => std::thread::sleep(std::time::Duration::from_micros(10 + (x >> 8) % 300)),
+        }
+    }
+}
+
 fn handler(site: &'static str, a: u64, b: u64) -> u64 {
     if COUNT_HITS.load(Ordering::Relaxed) {
         *HITS.lock().entry(site).or_insert(0) += 1;
@@ -26,8 +90,12 @@ fn handler(site: &'static str, a: u64, b: u64) -> u64 {
         "planner.no_range_path" => u64::from(NO_RANGE_PATH.load(Ordering::SeqCst)),
         "wal.max_log_size" => WAL_MAX_LOG_SIZE.load(Ordering::SeqCst),
         _ => {
-            if site.starts_with("wal.") && RECORD_EVENTS.load(Ordering::Relaxed) {
-                EVENTS.lock().push((site, a, b));
+            if site.starts_with("wal.") {
+                if RECORD_EVENTS.load(Ordering::Relaxed) {
+                    EVENTS.lock().push((site, a, b));
+                }
+            } else {
+                yield_behaviour(site);
             }
             0
         }
